@@ -1,7 +1,128 @@
-(* family 10: stub, to be filled *)
+(* family 10: CfdpLv, CfdpTlv, the six concrete TLV classes, TlvHolder, status helpers *)
 From Coq Require Import ZArith List Bool.
-From SP Require Import Base.Result Base.Bytes Run.Marshal.
+From SP Require Import Base.Result Base.Bytes Base.Utf8 Run.Marshal Model.Lv Model.Tlv Spec.TlvSpec.
 Import ListNotations.
 Open Scope Z_scope.
 
-Definition run_tlv (op : Z) (a : args) : args := [[1; 97]].
+(* exception class as compared by the harness (TooShort / Unicode are ValueErrors) *)
+Definition err_canon (e : err) : Z :=
+  match e with ETooShort | EUnicode => 1 | _ => err_code e end.
+(* an embedded result: 0::octets or [1; class] *)
+Definition rb (r : res bytes) : list Z :=
+  match r with Ok b => 0 :: b | Err e => [1; err_canon e] end.
+
+Definition tlv_view (t : tlv) : args :=
+  [[tlv_type t]; tlv_value t; [tlv_packet_len t]; rb (tlv_pack t)].
+(* wrapper object (entity / flow / msg): class constant, wrapped TLV *)
+Definition wrap_view (cls : Z) (t : tlv) : args := [cls] :: tlv_view t.
+Definition fault_view (f : fault_tlv) : args :=
+  [fh_cc f; fh_hc f] :: wrap_view TLV_FAULT_HANDLER (fh_tlv f).
+Definition fsreq_view (r : fsreq) : args :=
+  [[fq_action r]; fq_first r; fq_second r; [fsreq_packet_len r]; rb (fsreq_pack r);
+   rb (fsreq_value r)].
+Definition fsresp_view (r : fsresp) : args :=
+  [[fp_action r; fp_status r]; fp_first r; fp_second r; fp_msg r; [fsresp_packet_len r];
+   rb (fsresp_pack r); rb (fsresp_value r)].
+
+Definition any_view (h : any_tlv) : args :=
+  match h with
+  | HNone => [[0]]
+  | HGeneric t => [1] :: tlv_view t
+  | HFsReq r => [2] :: fsreq_view r
+  | HFsResp r => [3] :: fsresp_view r
+  | HMsg t => [4] :: wrap_view TLV_MESSAGE_TO_USER t
+  | HFault f => [5] :: fault_view f
+  | HFlow t => [6] :: wrap_view TLV_FLOW_LABEL t
+  | HEntity t => [7] :: wrap_view TLV_ENTITY_ID t
+  end.
+
+(* holder content from [[mode]; [type]; value]: 0 None, 1 generic CfdpTlv, 2 the concrete
+   class of that type built with from_tlv *)
+Definition holder_of_args (a : args) : res any_tlv :=
+  let mode := int 0 0 a in
+  if mode =? 0 then Ok HNone else
+  do t <- tlv_new (int 1 0 a) (lst 2 a);
+  if mode =? 1 then Ok (HGeneric t) else
+  let ty := tlv_type t in
+  if ty =? TLV_FILESTORE_REQUEST then do r <- fsreq_from_tlv t; Ok (HFsReq r)
+  else if ty =? TLV_FILESTORE_RESPONSE then do r <- fsresp_from_tlv t; Ok (HFsResp r)
+  else if ty =? TLV_MESSAGE_TO_USER then do r <- msg_from_tlv t; Ok (HMsg r)
+  else if ty =? TLV_FAULT_HANDLER then do r <- fault_from_tlv t; Ok (HFault r)
+  else if ty =? TLV_FLOW_LABEL then do r <- flow_from_tlv t; Ok (HFlow r)
+  else if ty =? TLV_ENTITY_ID then do r <- entity_from_tlv t; Ok (HEntity r)
+  else Err EOther.
+
+Definition fsreq_of_args (a : args) : fsreq :=
+  {| fq_action := int 0 0 a; fq_first := lst 1 a; fq_second := lst 2 a |}.
+Definition fsresp_of_args (a : args) : res fsresp :=
+  do m <- lv_new (lst 3 a);
+  Ok {| fp_action := int 0 0 a; fp_status := int 0 1 a; fp_first := lst 1 a;
+        fp_second := lst 2 a; fp_msg := m |}.
+
+Definition run_tlv (op : Z) (a : args) : args :=
+  match op with
+  (* LV *)
+  | 1000 => ret (fun v => [lv_pack v; [lv_packet_len v]; v]) (lv_new (lst 0 a))
+  | 1001 => ret (fun v => [v; [lv_packet_len v]; lv_pack v]) (lv_unpack (lst 0 a))
+  | 1002 => ret (fun b => [[b2z b]])
+              (do x <- lv_new (lst 0 a); do y <- lv_new (lst 1 a); Ok (lv_eqb x y))
+  | 1007 => ret (fun v => [lv_pack v; [lv_packet_len v]; v]) (lv_from_str (lst 0 a))
+  (* generic TLV *)
+  | 1003 => ret tlv_view (tlv_new (int 0 0 a) (lst 1 a))
+  | 1004 => ret tlv_view (tlv_unpack (lst 0 a))
+  | 1005 => ret (fun b => [[b2z b]])
+              (do x <- tlv_new (int 0 0 a) (lst 1 a); do y <- tlv_new (int 2 0 a) (lst 3 a);
+               Ok (tlv_eqb x y))
+  | 1006 => ret (fun _ => [[0]])
+              (do x <- tlv_new (int 0 0 a) (lst 1 a); check_type (tlv_type x) (int 2 0 a))
+  (* entity id *)
+  | 1010 => ret (wrap_view TLV_ENTITY_ID) (entity_new (lst 0 a))
+  | 1011 => ret (wrap_view TLV_ENTITY_ID) (entity_unpack (lst 0 a))
+  | 1012 => ret (wrap_view TLV_ENTITY_ID)
+              (do t <- tlv_new (int 0 0 a) (lst 1 a); entity_from_tlv t)
+  | 1013 => ret (fun b => [[b2z b]])
+              (do x <- entity_new (lst 0 a); do y <- entity_new (lst 1 a); entity_eqb x y)
+  (* flow label *)
+  | 1014 => ret (wrap_view TLV_FLOW_LABEL) (flow_new (lst 0 a))
+  | 1015 => ret (wrap_view TLV_FLOW_LABEL) (flow_unpack (lst 0 a))
+  | 1016 => ret (wrap_view TLV_FLOW_LABEL)
+              (do t <- tlv_new (int 0 0 a) (lst 1 a); flow_from_tlv t)
+  (* fault handler override *)
+  | 1017 => ret fault_view (fault_new (int 0 0 a) (int 0 1 a))
+  | 1018 => ret fault_view (fault_unpack (lst 0 a))
+  | 1019 => ret fault_view (do t <- tlv_new (int 0 0 a) (lst 1 a); fault_from_tlv t)
+  (* message to user *)
+  | 1020 => ret (wrap_view TLV_MESSAGE_TO_USER) (msg_new (lst 0 a))
+  | 1021 => ret (wrap_view TLV_MESSAGE_TO_USER) (msg_unpack (lst 0 a))
+  | 1022 => ret (wrap_view TLV_MESSAGE_TO_USER)
+              (do t <- tlv_new (int 0 0 a) (lst 1 a); msg_from_tlv t)
+  (* filestore request *)
+  | 1023 => [0] :: fsreq_view (fsreq_of_args a)
+  | 1024 => ret fsreq_view (fsreq_unpack (lst 0 a))
+  | 1025 => ret fsreq_view (do t <- tlv_new (int 0 0 a) (lst 1 a); fsreq_from_tlv t)
+  (* filestore response *)
+  | 1026 => ret fsresp_view (fsresp_of_args a)
+  | 1027 => ret fsresp_view (fsresp_unpack (lst 0 a))
+  | 1028 => ret fsresp_view (do t <- tlv_new (int 0 0 a) (lst 1 a); fsresp_from_tlv t)
+  (* holder *)
+  | 1030 => ret any_view (do h <- holder_of_args a; holder_to_fs_request h)
+  | 1031 => ret any_view (do h <- holder_of_args a; holder_to_fs_response h)
+  | 1032 => ret any_view (do h <- holder_of_args a; holder_to_msg_to_user h)
+  | 1033 => ret any_view (do h <- holder_of_args a; holder_to_fault_handler_override h)
+  | 1034 => ret any_view (do h <- holder_of_args a; holder_to_flow_label h)
+  | 1035 => ret any_view (do h <- holder_of_args a; holder_to_entity_id h)
+  (* status helpers *)
+  | 1040 => [[0]; [map_enum_status_code_to_int (int 0 0 a)]]
+  | 1041 => ret (fun p => [[fst p; snd p]]) (map_enum_status_code_to_action_status_code (int 0 0 a))
+  | 1042 => [[0]; [map_int_status_code_to_enum (int 0 0 a) (int 0 1 a)]]
+  (* bytes.decode() *)
+  | 1043 => [[0]; [b2z (utf8_valid (lst 0 a))];
+             [if utf8_valid (lst 0 a) then utf8_chars (lst 0 a) else 0]]
+  (* Spec side *)
+  | 1050 => [[0]; lv_layout (lst 0 a)]
+  | 1051 => [[0]; tlv_layout (int 0 0 a) (lst 1 a)]
+  | 1052 => [[0]; fault_layout (int 0 0 a) (int 0 1 a)]
+  | 1053 => [[0]; fsreq_layout (int 0 0 a) (lst 1 a) (lst 2 a)]
+  | 1054 => [[0]; fsresp_layout (int 0 0 a) (int 0 1 a) (lst 1 a) (lst 2 a) (lst 3 a)]
+  | _ => [[1; 97]]
+  end.
